@@ -111,7 +111,46 @@ pub broadcast proof fn b_wf_vacate(a: Slots, fa: Seq<int>, b: Slots, fb: Seq<int
         }
     }
 }
-pub broadcast group group_slots { b_wf_add, b_wf_push, b_wf_same_links, b_wf_vacate }
+// ---- single-term-trigger forms: the field-level description of what each function does (proved by symbolic execution of the verbatim
+// body) implies the representation invariant of the result.  One trigger term that covers every variable => stable under solver seeds.
+pub open spec fn add_post(a: Slots, b: Slots, p: GcRef, r: int) -> bool {
+    &&& b.slots@[r] == (Slot::Occupied { root: p, ref_count: 0 }) && others_same(a, b, r)
+    &&& if a.next_free != NULL_INDEX { r == a.next_free as int && b.slots@.len() == a.slots@.len() && b.next_free == a.slots@[r]->next_free }
+        else { r == a.slots@.len() && b.slots@.len() == a.slots@.len() + 1 && b.next_free == a.next_free }
+}
+pub broadcast proof fn b_add_post(a: Slots, fa: Seq<int>, b: Slots, p: GcRef, r: int)
+    ensures #![trigger add_post(a, b, p, r), wf(a, fa)]
+        wf(a, fa) && a.slots@.len() < usize::MAX - 1 && add_post(a, b, p, r) ==> wf(b, free_after_add(a, fa))
+{
+    if wf(a, fa) && a.slots@.len() < usize::MAX - 1 && add_post(a, b, p, r) {
+        if a.next_free != NULL_INDEX { assert(fa.len() > 0 && fa[0] == r); assert(a.slots@[fa[0]] is Vacant); b_wf_add(a, fa, b, fa.drop_first()); }
+        else { b_wf_push(a, fa, b); }
+    }
+}
+pub open spec fn inc_post(a: Slots, b: Slots, idx: int) -> bool {
+    &&& b.slots@.len() == a.slots@.len() && b.next_free == a.next_free && others_same(a, b, idx)
+    &&& b.slots@[idx] == (Slot::Occupied { root: a.slots@[idx]->root, ref_count: (a.slots@[idx]->ref_count + 1) as usize })
+}
+pub broadcast proof fn b_inc_post(a: Slots, fa: Seq<int>, b: Slots, idx: int)
+    ensures #![trigger inc_post(a, b, idx), wf(a, fa)]
+        wf(a, fa) && 0 <= idx < a.slots@.len() && a.slots@[idx] is Occupied && inc_post(a, b, idx) ==> wf(b, fa)
+{
+    if wf(a, fa) && 0 <= idx < a.slots@.len() && a.slots@[idx] is Occupied && inc_post(a, b, idx) { b_wf_same_links(a, fa, b, idx); }
+}
+pub open spec fn dec_post(a: Slots, b: Slots, idx: int) -> bool {
+    &&& b.slots@.len() == a.slots@.len() && others_same(a, b, idx)
+    &&& if a.slots@[idx]->ref_count == 0 { b.slots@[idx] == (Slot::Vacant { next_free: a.next_free }) && b.next_free == idx as usize }
+        else { b.next_free == a.next_free && b.slots@[idx] == (Slot::Occupied { root: a.slots@[idx]->root, ref_count: (a.slots@[idx]->ref_count - 1) as usize }) }
+}
+pub broadcast proof fn b_dec_post(a: Slots, fa: Seq<int>, b: Slots, idx: int)
+    ensures #![trigger dec_post(a, b, idx), wf(a, fa)]
+        wf(a, fa) && 0 <= idx < a.slots@.len() && a.slots@[idx] is Occupied && dec_post(a, b, idx) ==> wf(b, free_after_dec(a, fa, idx))
+{
+    if wf(a, fa) && 0 <= idx < a.slots@.len() && a.slots@[idx] is Occupied && dec_post(a, b, idx) {
+        if a.slots@[idx]->ref_count == 0 { b_wf_vacate(a, fa, b, seq![idx] + fa, idx); } else { b_wf_same_links(a, fa, b, idx); }
+    }
+}
+pub broadcast group group_slots { b_add_post, b_inc_post, b_dec_post }
 }
 
 } // verus!
